@@ -14,7 +14,7 @@ reg("C04", "accelerated code paths vs plain ones",
          "collocated cokriging vs complemented data, all targets in one call (neighbourhood/LHS reuse) vs one call per target. search: migrate() ball vs exhaustive vs brute force (ties and limit-boundary "
          "cases skipped), NeighMoving::select ball vs scan on targets whose nmaxi Euclidean-nearest samples are all admissible "
          "(precondition evaluated by the harness). calcul: KrigingCalcul primal/dual/Bayes/collocated/xvalid vs kriging()/kribayes() and "
-         "vs a long-double solve of the same matrices. Tolerance 1e3*eps*kappa*scale (relative above the natural magnitude), kappa>1e9 skipped as illcond (1e7 in the calcul part, whose explicit-inverse algebra loses eps*kappa^2). distinct = distinct "
+         "vs a long-double solve of the same matrices. Tolerance 1e3*eps*kappa*scale (relative above the natural magnitude), kappa>1e9 skipped as illcond (1e6 in the calcul part, whose explicit-inverse algebra loses eps*kappa^2). distinct = distinct "
          "(pair, ndim, nvar, structure set, drift, heterotopy, selection, option) signatures with a non-skipped evaluation.",
     level="exploration",
     require=dict(distinct=1000,
